@@ -44,6 +44,9 @@ enum Ending {
     CancelAfter(u32),
     CfailCompile(usize),
     CfailOp(usize),
+    /// not a resolution at all: the caller hands the instance a constant template directly
+    /// (`Compiler::compile`), which leaves a body behind without any resolution having started
+    DirectCompile,
 }
 
 struct HistItem {
@@ -61,6 +64,45 @@ fn uses_min_utxo(tx: &tir::Tx) -> bool {
 }
 
 fn run_item(chain: &SimChain, comp: &mut SimCompiler, item: &HistItem, log: &mut Vec<String>) -> (Outcome, u32, u64, usize) {
+    if let Ending::DirectCompile = item.ending {
+        // resolve on a scratch instance (identically configured) to obtain a constant template,
+        // then compile that template directly on the instance under test
+        use tx3_tir::compile::Compiler as _;
+        let mut scratch = SimCompiler::new(tx3_cardano::Compiler::new(
+            tx3_cardano::PParams {
+                network: comp.inner.pparams.network,
+                min_fee_coefficient: comp.inner.pparams.min_fee_coefficient,
+                min_fee_constant: comp.inner.pparams.min_fee_constant,
+                coins_per_utxo_byte: comp.inner.pparams.coins_per_utxo_byte,
+                cost_models: comp.inner.pparams.cost_models.clone(),
+            },
+            comp.inner.config.clone(),
+            comp.inner.cursor.clone(),
+        ));
+        let natural = HistItem {
+            tx: item.tx.clone(),
+            name: item.name.clone(),
+            args: item.args.clone(),
+            max_rounds: item.max_rounds,
+            ending: Ending::Natural,
+        };
+        let mut l2 = vec![];
+        let (o, polls, calls, _) = run_item(chain, &mut scratch, &natural, &mut l2);
+        let mut compiled = 0;
+        if let Some(last) = scratch.rounds.iter().rev().find(|r| r.out.is_ok()) {
+            let any = tx3_tir::encoding::AnyTir::V1Beta0(last.tir.clone());
+            let _ = crate::exec::guarded(|| comp.inner.compile(&any).map(|_| ()));
+            compiled = 1;
+        }
+        log.push(format!(
+            "{} [DirectCompile] -> {} on a scratch instance, its last round compiled directly here: {} (body left: {})",
+            item.name,
+            o.kind(),
+            compiled,
+            comp.inner.latest_tx_body.is_some()
+        ));
+        return (o, polls, calls, compiled);
+    }
     let mut w = World::new(Tape::replay(vec![]));
     w.chain = chain.clone();
     let mut cancel = None;
@@ -84,6 +126,7 @@ fn run_item(chain: &SimChain, comp: &mut SimCompiler, item: &HistItem, log: &mut
         }
         Ending::CfailCompile(r) => comp.fail_compile_at = Some(*r),
         Ending::CfailOp(r) => comp.fail_op_at = Some(*r),
+        Ending::DirectCompile => unreachable!(),
     }
     // latency of exactly one tick on every call: a fixed, draw-free schedule with real await points
     w.cfg.lat_max = 0;
@@ -147,6 +190,7 @@ fn inner(t: &mut Tape, rep: &mut WorldReport) {
     let profile = *t.pick(&[Profile::Fee, Profile::Rich, Profile::Selection]);
     let force_min_utxo = if t.chance(3, 4) { Some(true) } else { None };
     let optional_bias = t.chance(1, 2);
+    let rich_directives = t.chance(1, 3);
     let program = gen_program(
         t,
         &GenCfg {
@@ -154,8 +198,11 @@ fn inner(t: &mut Tape, rep: &mut WorldReport) {
             mainnet: pp.mainnet,
             max_txs: 3,
             force_min_utxo,
-            rich_directives: false,
+            // witnesses, redeemers and withdrawals: what the instance may remember of a script
+            // transaction (language, cost-model view) must not reach the next one
+            rich_directives,
             optional_bias,
+            datum_bias: false,
         },
     );
     let source = program.source();
@@ -189,12 +236,13 @@ fn inner(t: &mut Tape, rep: &mut WorldReport) {
         let ending = if natural {
             Ending::Natural
         } else {
-            match t.weighted(&[4, 2, 2, 1, 1]) {
+            match t.weighted(&[4, 2, 2, 1, 1, 2]) {
                 0 => Ending::Natural,
                 1 => Ending::ErrAtCall(1 + t.draw(12)),
                 2 => Ending::CancelAfter(1 + t.draw(16) as u32),
                 3 => Ending::CfailCompile(t.index(4)),
-                _ => Ending::CfailOp(t.index(4)),
+                4 => Ending::CfailOp(t.index(4)),
+                _ => Ending::DirectCompile,
             }
         };
         HistItem {
